@@ -243,8 +243,19 @@ func checkBig(c BigCase) *vk.Violation {
 			if l != len(out)-4 {
 				return vk.Violf(cont+"/length-field-disagrees-with-value", c, "%s: value of %d octets: length field says %d, %d value octets follow", cont, c.Len, l, len(out)-4)
 			}
+			if c.Len <= 65535 && l != c.Len {
+				return vk.Violf(cont+"/value-that-fits-is-truncated", c, "%s: a value of %d octets fits the 16-bit length field but %d octets were emitted", cont, c.Len, l)
+			}
 			if binary.BigEndian.Uint16(out[0:2]) != c.Tag || !bytes.HasPrefix(val, out[4:]) {
 				return vk.Violf(cont+"/oversized-value-altered", c, "%s: emitted tag/value are not the given tag and a prefix of the given value", cont)
+			}
+		}
+		if c.Len <= 65535 && len(all) > 0 {
+			for _, p := range parsers[2*ci : 2*ci+2] {
+				r := p.f(all)
+				if got, ok := r.m[c.Tag]; !r.ok || !ok || !bytes.Equal(got, val) {
+					return vk.Violf(p.name+"/boundary-size-round-trip", c, "%s(%s) does not return the %d-octet value that was put in (accepted=%v, got %d octets)", p.name, cont, c.Len, r.ok, len(got))
+				}
 			}
 		}
 		if ci == 1 && optLen != optSerLen {
